@@ -1,5 +1,5 @@
 """C16 - table geometry survives save and reopen: size fix-point of the real read/write pair; header count guards."""
-from numbers_parser.cell import Cell
+from numbers_parser.cell import Cell, MergedCell
 from numbers_parser.constants import MAX_HEADER_COUNT
 from numbers_parser.generated import TSTArchives_pb2 as TSTArchives
 from numbers_parser.model import _NumbersModel
@@ -18,6 +18,14 @@ class FakeCell:
     def __init__(self, w):
         b = Rec(width=w) if w else None
         self.border = Rec(top=b, bottom=None, left=b, right=None)
+
+
+class FakeMerged(MergedCell):
+    """a merged placeholder as recalculate_column_headers sees it (isinstance MergedCell); no borders of its own"""
+    border = Rec(top=None, bottom=None, left=None, right=None)
+
+    def __init__(self):
+        pass
 
 
 class SizeModel(Cacheable):
@@ -41,13 +49,18 @@ def header(eng=None, **kw):
     return Rec(**kw)
 
 
-def h16a_sizes(h1, w1, border, query_first, set_h, new_h, cycles, nrows):
+def h16a_sizes(h1, w1, border, query_first, set_h, new_h, cycles, nrows, merged_col):
     """stored row heights / column widths come back equal after 1..3 save/reopen cycles, whether or not they were queried
     before saving; a height set through the API is the one stored"""
     assume(1 <= h1 <= 10000 and 1 <= w1 <= 10000 and 1 <= new_h <= 10000)
     last = nrows - 1                      # the row with the custom height (beyond the first tile when nrows > 256)
     plain = [FakeCell(0.0), FakeCell(0.0)]
     data = [plain for _ in range(last)] + [[FakeCell(border), FakeCell(0.0)]]
+    if merged_col:
+        # column 0 (the one with the custom width) is completely covered by a merge anchored in column 1: it has no
+        # cells of its own
+        assume(border == 0.0)
+        data = [[FakeMerged(), FakeCell(0.0)] for _ in range(nrows)]
     rows = [Rec(index=r, numberOfCells=2, size=0.0, hidingState=0) for r in range(last)]
     rows.append(Rec(index=last, numberOfCells=2, size=float(h1), hidingState=0))
     cols = [Rec(index=0, numberOfCells=2, size=float(w1), hidingState=0), Rec(index=1, numberOfCells=2, size=0.0, hidingState=0)]
@@ -77,6 +90,8 @@ def h16a_sizes(h1, w1, border, query_first, set_h, new_h, cycles, nrows):
         assert len(hs) == nrows
         for r in range(nrows):
             assert hs[r].index == r                                      # one header record per row, at its own index
+        cs = m.objects[31].headers
+        assert len(cs) == 2 and cs[0].index == 0 and cs[1].index == 1    # and one per column
     if border == 0.0:
         assert got_h == (new_h if set_h else h1)
         assert got_w == w1
@@ -102,9 +117,10 @@ def h16b_header_counts(n, R, C, rows):
 HARNESSES = [
     Harness("H16a", h16a_sizes,
             dict(h1=BVDom(14), w1=BVDom(14), border=Cases([0.0, 1.0, 3.0]), query_first=BoolDom(), set_h=BoolDom(), new_h=BVDom(14),
-                 cycles=Cases([1, 2, 3]), nrows=Cases([2, 258])),
+                 cycles=Cases([1, 2, 3]), nrows=Cases([2, 258]), merged_col=Cases([False, True])),
             bounds="stored height/width: every integer number of points 1..10000 (symbolic); border widths {0, 1, 3}; queried or "
-                   "not before saving; height set through the API or not; 1..3 save/reopen cycles; the sized row is the last of 2 or of 258 rows (second tile)",
+                   "not before saving; height set through the API or not; 1..3 save/reopen cycles; the sized row is the last of 2 or of 258 rows (second tile); "
+                   "the sized column has cells of its own or is completely covered by a merge",
             stubs=["object store and header records = attribute bags; Header constructor = attribute bag"],
             outside=["names, captions, visibility, coordinates (protobuf attribute pass-through and I/O)", "non-integral stored sizes"],
             models={TSTArchives.HeaderStorageBucket.Header: header}),
